@@ -11,3 +11,11 @@ pub mod util;
 mod fungible;
 #[cfg(kani)]
 mod handshake;
+#[cfg(kani)]
+mod access;
+#[cfg(kani)]
+mod timelock;
+#[cfg(kani)]
+mod rwa;
+#[cfg(kani)]
+mod gates;
